@@ -22,7 +22,8 @@ KINDS = {
 }
 MID = {"Mid": {"type": "string", "enum": ["x", "y"]}}
 NODEFAULT = object()
-DEFAULTS = [NODEFAULT, None, False, True, 0, 0.0, 5, -0.0, 1e-20, 0.5, 1e-310, "", "x", " ", [], ["a"], [[]], {}, {"k": 1}]     # zero, and what is nearly zero
+DEFAULTS = [NODEFAULT, None, False, True, 0, 0.0, 5, -0.0, 1e-20, 0.5, 1e-310, "", "x", " ", [], ["a"], [[]], {}, {"k": 1},     # zero, and what is nearly zero
+            1e300, 1e19, -1e19, 9007199254740993, 18446744073709551615, [1e19], {"k": 1e300}, 2.0]     # the far ends of the number line (kept as they are)
 
 def points():
     out = []
